@@ -40,8 +40,20 @@ structure Target where
   slot : Nat
 deriving DecidableEq, Repr, Hashable
 
+/-- which variant of `z_chan.go` is modelled: `recvseqFix = false` is the code without the hand-off counter
+    (the tree before `fixes/C10-1.diff`), `true` the code with `recvseq` (the diff applied).  The check detects the
+    variant of the working tree by replaying the two witness schedules and drives the model with it. -/
+structure Cfg where
+  recvseqFix : Bool
+deriving DecidableEq, Repr, Hashable
+
+def Cfg.current : Cfg := ⟨false⟩
+def Cfg.fixed : Cfg := ⟨true⟩
+
 /-- `type Chan struct` (mutex and condition variable live in `State`) -/
 structure Chan where
+  /-- the code variant this channel object runs (constant; see `Cfg`) -/
+  fixed : Bool
   cap : Nat
   /-- ring storage of a buffered channel (`cap` cells) -/
   data : List Val
@@ -54,6 +66,8 @@ structure Chan where
   selsends : Nat
   /-- registered `selectOp`s; a `selectOp` is identified with the thread that runs the `Select` -/
   sops : List Tid
+  /-- `p.recvseq` (only in the `fixed` variant): number of completed unbuffered hand-offs -/
+  recvseq : Nat
   /-- ghost: values committed by senders, in order -/
   sent : List Val
   /-- ghost: values handed to receivers, in order -/
@@ -61,8 +75,8 @@ structure Chan where
 deriving DecidableEq, Repr, Hashable
 
 /-- `NewChan(eltSize, cap)` -/
-def newChan (cap : Nat) : Chan :=
-  { cap := cap, data := List.replicate cap 0, slot := none, getp := 0, len := 0, closed := false,
+def newChan (cfg : Cfg) (cap : Nat) : Chan :=
+  { fixed := cfg.recvseqFix, recvseq := 0, cap := cap, data := List.replicate cap 0, slot := none, getp := 0, len := 0, closed := false,
     sends := 0, selsends := 0, sops := [], sent := [], recvd := [] }
 
 /-- logical contents of the ring, oldest first: cells `getp, getp+1, …` (mod cap), `len` of them -/
@@ -80,8 +94,10 @@ inductive Point
   | recvLock (c : Cid) (slot : Nat)         -- ChanRecv: entry lock
   | recvWaitU (c : Cid) (slot : Nat)        -- ChanRecv: first unbuffered loop
   | recvWaitB (c : Cid) (slot : Nat)        -- ChanRecv: buffered loop
-  | recv2Lock (c : Cid) (try_ : Bool)       -- ChanRecv / chanTryRecv: second `p.mutex.Lock()` (unbuffered)
-  | recv2Wait (c : Cid) (try_ : Bool)       -- … its wait loop
+  /-- ChanRecv / chanTryRecv: second `p.mutex.Lock()` (unbuffered); `seq` = the local `seq` of the fixed variant
+      (value of `p.recvseq` when the receiver armed the channel; always 0 in the current variant) -/
+  | recv2Lock (c : Cid) (try_ : Bool) (seq : Nat)
+  | recv2Wait (c : Cid) (try_ : Bool) (seq : Nat)       -- … its wait loop
   | closeLock (c : Cid)
   | trySendLock (c : Cid) (v : Val)
   | tryRecvLock (c : Cid) (slot : Nat) (accept : Bool)
@@ -91,7 +107,7 @@ deriving DecidableEq, Repr, Hashable
 
 def Point.chan : Point → Cid
   | .sendLock c _ | .sendWaitU c _ | .sendWaitB c _ | .recvLock c _ | .recvWaitU c _ | .recvWaitB c _
-  | .recv2Lock c _ | .recv2Wait c _ | .closeLock c | .trySendLock c _ | .tryRecvLock c _ _
+  | .recv2Lock c _ _ | .recv2Wait c _ _ | .closeLock c | .trySendLock c _ | .tryRecvLock c _ _
   | .prepLock c _ | .endLock c _ => c
 
 def Point.isWait : Point → Bool
@@ -112,7 +128,7 @@ deriving DecidableEq, Repr, Hashable
 /-- what follows `p.mutex.Unlock(); p.cond.Broadcast()` -/
 inductive Next
   | ret (r : Ret)
-  | recv2 (try_ : Bool)               -- `if n == 0 { p.mutex.Lock() …`
+  | recv2 (try_ : Bool) (seq : Nat)   -- `if n == 0 { p.mutex.Lock() …`
 deriving DecidableEq, Repr, Hashable
 
 /-- what follows `notifyOps(p)` (still holding `p.mutex`) -/
@@ -144,11 +160,14 @@ def Chan.front (ch : Chan) : Val := ch.data.getD ch.getp 0
 def Chan.pop (ch : Chan) : Chan :=
   { ch with getp := (ch.getp + 1) % ch.cap, len := ch.len - 1, recvd := ch.recvd ++ [ch.front] }
 
-/-- unbuffered hand-off: `if p.data != nil { Memcpy(p.data, v) }; p.getp = chanNoSendRecv` -/
+/-- `p.recvseq++` of the fixed variant -/
+def Chan.bump (ch : Chan) : Nat := if ch.fixed then ch.recvseq + 1 else ch.recvseq
+
+/-- unbuffered hand-off: `if p.data != nil { Memcpy(p.data, v) }; p.getp = chanNoSendRecv` [`; p.recvseq++`] -/
 def Chan.handOff (ch : Chan) (v : Val) : Chan × Option (Target × Val) :=
   match ch.slot with
-  | some tg => ({ ch with getp := noSendRecv, sent := ch.sent ++ [v], recvd := ch.recvd ++ [v] }, some (tg, v))
-  | none => ({ ch with getp := noSendRecv, sent := ch.sent ++ [v] }, none)
+  | some tg => ({ ch with getp := noSendRecv, recvseq := ch.bump, sent := ch.sent ++ [v], recvd := ch.recvd ++ [v] }, some (tg, v))
+  | none => ({ ch with getp := noSendRecv, recvseq := ch.bump, sent := ch.sent ++ [v] }, none)
 
 /-- ChanSend from the loop head (mutex held) -/
 def sendLoop (ch : Chan) (c : Cid) (v : Val) : BodyRes :=
@@ -172,16 +191,22 @@ def recvLoop (ch : Chan) (c : Cid) (tg : Target) : BodyRes :=
   if ch.cap = 0 then
     if ch.getp = hasRecv ∧ ch.closed = false then ⟨ch, none, .wait (.recvWaitU c tg.slot)⟩
     else if ch.closed then ⟨ch, none, .unlock (.recv false)⟩
-    else ⟨{ ch with getp := hasRecv, slot := some tg }, none, .notify (.finish true (.recv2 false))⟩
+    else ⟨{ ch with getp := hasRecv, slot := some tg }, none, .notify (.finish true (.recv2 false ch.recvseq))⟩
   else
     if ch.len = 0 then
       if ch.closed then ⟨ch, none, .unlock (.recv false)⟩ else ⟨ch, none, .wait (.recvWaitB c tg.slot)⟩
     else ⟨ch.pop, some (tg, ch.front), .notify (.finish true (.ret (.recv true)))⟩
 
-/-- second phase of an unbuffered receive: `for p.getp == chanHasRecv && !p.close { Wait }; recvOK = !p.close` -/
-def recv2Loop (ch : Chan) (c : Cid) (try_ : Bool) : BodyRes :=
-  if ch.getp = hasRecv ∧ ch.closed = false then ⟨ch, none, .wait (.recv2Wait c try_)⟩
-  else ⟨ch, none, .unlock (if try_ then .tryRecv (!ch.closed) (!ch.closed) else .recv (!ch.closed))⟩
+/-- second phase of an unbuffered receive.
+    current variant: `for p.getp == chanHasRecv && !p.close { Wait }; recvOK = !p.close`;
+    fixed variant:   `for p.recvseq == seq && !p.close { Wait }; recvOK = p.recvseq != seq` -/
+def recv2Loop (ch : Chan) (c : Cid) (try_ : Bool) (seq : Nat) : BodyRes :=
+  if ch.fixed then
+    if ch.recvseq = seq ∧ ch.closed = false then ⟨ch, none, .wait (.recv2Wait c try_ seq)⟩
+    else ⟨ch, none, .unlock (if try_ then .tryRecv (ch.recvseq != seq) (ch.recvseq != seq) else .recv (ch.recvseq != seq))⟩
+  else
+    if ch.getp = hasRecv ∧ ch.closed = false then ⟨ch, none, .wait (.recv2Wait c try_ seq)⟩
+    else ⟨ch, none, .unlock (if try_ then .tryRecv (!ch.closed) (!ch.closed) else .recv (!ch.closed))⟩
 
 def closeBody (ch : Chan) : BodyRes :=
   if ch.closed then ⟨ch, none, .panic⟩
@@ -201,7 +226,7 @@ def tryRecvBody (ch : Chan) (tg : Target) (accept : Bool) : BodyRes :=
   if ch.cap = 0 then
     if ch.sends = 0 ∨ ch.getp = hasRecv ∨ ch.closed then ⟨ch, none, .unlock (.tryRecv false ch.closed)⟩
     else if accept = false ∧ ch.sends = ch.selsends then ⟨ch, none, .unlock (.tryRecv false false)⟩
-    else ⟨{ ch with getp := hasRecv, slot := some tg }, none, .notify (.finish true (.recv2 true))⟩
+    else ⟨{ ch with getp := hasRecv, slot := some tg }, none, .notify (.finish true (.recv2 true ch.recvseq))⟩
   else
     if ch.len = 0 then ⟨ch, none, .unlock (.tryRecv false ch.closed)⟩
     else ⟨ch.pop, some (tg, ch.front), .notify (.finish true (.ret (.tryRecv true true)))⟩
@@ -225,8 +250,8 @@ def body (p : Point) (t : Tid) (ch : Chan) : BodyRes :=
   | .recvLock c slot => recvLoop ch c ⟨t, slot⟩
   | .recvWaitU c slot => recvLoop ch c ⟨t, slot⟩
   | .recvWaitB c slot => recvLoop ch c ⟨t, slot⟩
-  | .recv2Lock c try_ => recv2Loop ch c try_
-  | .recv2Wait c try_ => recv2Loop ch c try_
+  | .recv2Lock c try_ seq => recv2Loop ch c try_ seq
+  | .recv2Wait c try_ seq => recv2Loop ch c try_ seq
   | .closeLock _ => closeBody ch
   | .trySendLock _ v => trySendBody ch v
   | .tryRecvLock _ slot accept => tryRecvBody ch ⟨t, slot⟩ accept
@@ -306,7 +331,7 @@ structure State where
   threads : List Thread
 deriving DecidableEq, Repr, Hashable
 
-def dfltChan : Chan := newChan 0
+def dfltChan : Chan := newChan Cfg.current 0
 def dfltThread : Thread := { pc := .done, waiting := false, ops := [], res := [], rv := [], sel := none, sem := false }
 
 def State.chan (s : State) (c : Cid) : Chan := s.chans.getD c dfltChan
@@ -450,7 +475,7 @@ def doAfter (s : State) (t : Tid) (c : Cid) (k : After) : State :=
     let s := if bc then { s with threads := broadcast c s.threads } else s
     match n with
     | .ret r => s.setThread t (onRet (s.thread t) r)
-    | .recv2 try_ => s.setThread t { s.thread t with pc := .at (.recv2Lock c try_) }
+    | .recv2 try_ seq => s.setThread t { s.thread t with pc := .at (.recv2Lock c try_ seq) }
 
 /-- `notifyOps(p)` then `k` -/
 def doNotify (s : State) (t : Tid) (c : Cid) (k : After) : State :=
@@ -536,8 +561,8 @@ def runSched (s : State) : List Choice → Option State
     | none => none
 
 /-- initial state: channels of the given capacities, one thread per program -/
-def init (caps : List Nat) (progs : List (List Op)) : State :=
-  { chans := caps.map newChan, owner := caps.map fun _ => none,
+def init (cfg : Cfg) (caps : List Nat) (progs : List (List Op)) : State :=
+  { chans := caps.map (newChan cfg), owner := caps.map fun _ => none,
     threads := progs.map fun ops => { dfltThread with pc := .start, ops := ops } }
 
 def allDone (s : State) : Bool := s.threads.all fun th => th.pc == .done
